@@ -599,6 +599,19 @@ example : (runWait (some 2) [Ev.init 0, Ev.init 2, Ev.start 0 (some 8), Ev.fail 
     (runWait (some 2) [Ev.init 0, Ev.init 2, Ev.start 0 (some 8), Ev.fail 1, Ev.start 2 (some 7), Ev.fail 2]).res = .fail := by
   decide
 
+/-- **C07-3 (authenticated sender).** What a relayer does depends on the envelopes it receives only through the peers
+    their connections are authenticated as: rewriting the origin the envelopes CLAIM — e.g. a committee member naming the
+    coordinator — changes nothing; together with `obeys_only_coordinator` it is the coordinator's own connection that is
+    obeyed. -/
+theorem claimed_origin_is_ignored (c : α) (envs : List (Envelope α)) (claim : Envelope α → Option α) :
+    runWait (some c) (envs.map attributeSender) =
+      runWait (some c) ((envs.map fun e => { e with claimed := claim e }).map attributeSender) := by
+  congr 1
+  rw [List.map_map]
+  apply List.map_congr_left
+  intro e _
+  rfl
+
 /-- genuine messages ARE obeyed (the predicate above is not met by doing nothing): first initiate answered,
     first well-formed start run, fail aborts -/
 theorem genuine_messages_obeyed (c : α) (n : Nat) :
